@@ -372,7 +372,8 @@ fn stress_cmd(flags: &HashMap<String, String>) -> Result<(), String> {
     let millis = flag_num(flags, "millis")?;
     let seed = flag_num(flags, "seed")?;
     let keys = flag_num(flags, "keys")? as u32;
-    let rep = stress::run(kind, threads.max(1), millis, seed, keys.max(1), flags.get("stop-on").cloned());
+    let limits = flags.get("limits").map(|s| s != "off").unwrap_or(true);
+    let rep = stress::run(kind, threads.max(1), millis, seed, keys.max(1), flags.get("stop-on").cloned(), limits);
     let vio: Vec<String> = rep
         .violations
         .iter()
